@@ -58,14 +58,15 @@ class Analysis:
         return (d, "in", frozenset(vals))
 
     def atoms_at(self, bb, _depth=0):
-        out = [self.edge_atom(s, t) for (s, t) in self.dominating_edges(bb)]
+        dom_edges = list(self.dominating_edges(bb))
+        out = [self.edge_atom(s, t) for (s, t) in dom_edges]
         if _depth >= 3:
             return out
         # a boolean local that is only ever assigned constants outside loops (`let a = matches!(x, P);`, `let ok = cond;`
         # lowered to branches): `a` being true at a later test means the one block that assigns `true` was executed, so
         # the guards that dominate that block held — `if a && b { .. }` then reads like the nested `if let` form
         extra = []
-        for (d, rel, vals) in out:
+        for (d, rel, vals), (test_blk, _) in zip(out, dom_edges):
             d0 = d
             while d0[0] in ("ref", "deref"):
                 d0 = d0[1]
@@ -86,7 +87,9 @@ class Analysis:
                         cand.append((bi, si, None))
                 else:
                     cand.append((bi, si, x))
-            if len(defs) < 2 or len(cand) != 1 or any(self.in_loop(bi) for bi, _, _ in defs):
+            if len(defs) < 2 or len(cand) != 1:
+                continue
+            if any(self.in_loop(bi) for bi, _, _ in defs) and not self.assigned_this_iteration(test_blk, [bi for bi, _, _ in defs]):
                 continue
             bi, si, x = cand[0]
             if bi == bb:
@@ -105,6 +108,22 @@ class Analysis:
                 seen.add(k)
                 res.append(a)
         return res
+
+    def assigned_this_iteration(self, test_blk, def_blocks):
+        """the local tested in `test_blk` (inside a loop) was assigned in the same iteration: the test and every
+        definition lie in the same innermost loop, and the test cannot be reached from that loop's header without
+        passing a definition"""
+        loops = [(hd, set(self.body.natural_loop(tl, hd))) for (tl, hd) in self.body.back_edges()]
+        byhd = {}
+        for hd, lp in loops:
+            byhd.setdefault(hd, set()).update(lp)
+        inner = [(hd, lp) for hd, lp in byhd.items() if test_blk in lp]
+        if not inner:
+            return False
+        hd, lp = min(inner, key=lambda x: len(x[1]))
+        if any(b_ not in lp for b_ in def_blocks) or hd in def_blocks or test_blk in def_blocks:
+            return False
+        return not self.body.can_reach(hd, test_blk, avoid=def_blocks)
 
     def in_loop(self, bb):
         if not hasattr(self, "_loop_blocks"):
